@@ -18,7 +18,7 @@ meta = json.load(open(os.path.join(d, "meta.json")))
 prop = meta.get("property", os.path.basename(d).split("_")[0])[:3]
 checks = [prop]
 # changes filed by their author under one property whose statement is another's (see DESIGN 0.6): the owning check is run first
-OWNER = {"C13_y": ["C09", "C13"], "C13_l": ["C09", "C13"], "C20_h": ["C03", "C20"]}
+OWNER = {"C13_y": ["C09", "C13"], "C13_l": ["C09", "C13"], "C20_h": ["C03", "C20"], "C07_n": ["C03", "C07"]}
 checks = OWNER.get(os.path.basename(d.rstrip("/")), checks)
 tier = "quick"
 for i, a in enumerate(args):
